@@ -1614,12 +1614,38 @@ func (fr *Frame) doRange(st *State, x *ssa.Range) {
 	v := fr.get(st, x.X)
 	switch b := v.(type) {
 	case MapRef:
-		fr.regs[x] = &rangeIter{MRef: b, ID: st.eng.fresh("iter")}
+		it := &rangeIter{MRef: b, ID: st.eng.fresh("iter")}
+		if !isNilConst(b) {
+			it.M = fr.mapRefCell(st, b) // the entries at the start of the loop: what the enumeration ranges over
+		}
+		fr.regs[x] = it
+		// ghost set of the keys handed out so far (for invariants: visited(k)); one Go map range at a time
+		st.ghost["range.visited"] = Scalar{SetEmpty()}
 	case Scalar:
 		fr.regs[x] = &rangeIter{Str: b.T, Pos: Int(0), ID: st.eng.fresh("iter")}
 	default:
 		fail("Range over %T", v)
 	}
+}
+
+// keyIndex: the Int under which a map key is kept in the ghost visited-set. Int keys are their own
+// index; string keys go through an injective (left-invertible) uninterpreted function.
+func (st *State) keyIndex(k Value) (*Term, bool) {
+	kt, err := st.keyTerm(k)
+	if err != nil {
+		return nil, false
+	}
+	switch kt.Sort.Name {
+	case "Int":
+		return kt, true
+	case "String":
+		idx := UF("skey", SInt, kt)
+		// injectivity of the index function, as an axiom: skey.inv(skey(s)) == s for every string s
+		bs := Var("q.skey.s", SString)
+		st.assume(Forall([]*Term{bs}, Eq(UF("skey.inv", SString, UF("skey", SInt, bs)), bs)))
+		return idx, true
+	}
+	return nil, false
 }
 
 func (fr *Frame) doNext(st *State, x *ssa.Next, b *ssa.BasicBlock, i int) bool {
@@ -1630,17 +1656,47 @@ func (fr *Frame) doNext(st *State, x *ssa.Next, b *ssa.BasicBlock, i int) bool {
 	if x.IsString {
 		fail("range over string not supported")
 	}
-	// Map iteration: each Next yields a fresh (ok, k, v) with has(k) and v = m[k]; which keys were
-	// already visited is tracked by the loop's ghost invariants (iter functions), not here.
+	// Map iteration: each Next yields a fresh (ok, k, v): ok implies that k is an entry that has not been
+	// handed out before; !ok implies that every entry has been (ghost set range.visited, which loop
+	// invariants read through visited(k)).
 	mt := it.MRef.T
 	okT := Var(st.eng.fresh("next.ok"), SBool)
 	k := st.freshValue(mt.Key(), "next.k")
-	mo := fr.mapRefCell(st, it.MRef)
+	mo := it.M
+	if mo == nil {
+		mo = fr.mapRefCell(st, it.MRef)
+	}
 	val, has, err := st.mapGet(mo, k)
 	if err != nil {
 		fail("%s: %v", fr.fn, err)
 	}
 	st.assume(Implies(okT, has))
+	if vis, okv := st.ghost["range.visited"].(Scalar); okv {
+		if idx, oki := st.keyIndex(k); oki {
+			st.assume(Implies(okT, Not(SetHas(vis.T, idx))))
+			// exhausted: every entry has been visited
+			hq := Var(st.eng.fresh("q.k"), SInt)
+			qv := st.symValue(mt.Key(), hq)
+			if _, hasq, errq := st.mapGet(mo, qv); errq == nil {
+				if qkt, errk := st.keyTerm(qv); errk == nil {
+					var qidx *Term
+					switch qkt.Sort.Name {
+					case "Int":
+						qidx = qkt
+					case "String":
+						qidx = UF("skey", SInt, qkt)
+					}
+					if qidx != nil {
+						st.assume(Implies(Not(okT), Forall([]*Term{hq}, Implies(hasq, SetHas(vis.T, qidx)))))
+					}
+				}
+			}
+			st.ghost["range.visited"] = Scalar{SetAdd(vis.T, idx)}
+			if fr.dry != nil {
+				fr.dry.ghosts["range.visited"] = true
+			}
+		}
+	}
 	fr.regs[x] = Tuple{Scalar{okT}, k, val}
 	st.ghost["iter.last.ok"] = Scalar{okT}
 	st.ghost["iter.last.key"] = k
